@@ -4,6 +4,13 @@ import vlib
 
 
 def main():
+    import regen
+    try:
+        exe = vlib.harness_build("base")
+        regen.regen_all(exe)
+    except vlib.BuildError as e:
+        print(e)
+        return 1
     vlib.coq_makefile()
     rc, out = vlib.sh("make -j16", cwd=vlib.COQ, timeout=3000)
     print(out[-3000:])
